@@ -58,7 +58,7 @@ Example C15_example :
   let f := mkfixed None (Some ["data"; "out"]) None in
   job_dirs fresh ["wd"] f 0 = [["wd"; "u0"]; ["data"; "out"]; ["wd"; "u2"]] /\
   job_dirs fresh ["wd"] f 1 = [["wd"; "u3"]; ["data"; "out"]; ["wd"; "u5"]] /\
-  fixed_of f RIn = None /\ fixed_of f ROut = Some ["data"; "out"].
+  fixed_of f RIn = None /\ fixed_of f ROut = Some ["data"; "out"] /\ beneath ["wd"] ["data"; "out"] = false.
 Proof. vm_compute. repeat split; reflexivity. Qed.
 Example C15_registered_example :
   let tab := [mkloc ("__LOCAL__", "__LOCAL__") true None []] in
